@@ -178,6 +178,62 @@ def ode_search(chk, n):
             pass
 
 
+def field_tables(chk, MX, n):
+    """wind / density FIELD tables (x, y, z, value...): piecewise-linear interpolation on the Delaunay triangulation of the nodes reproduces
+    an affine field exactly (to rounding), so an affine table is an oracle for the column wiring, the array / single-point calling
+    conventions and the per-control-point sampling without modelling scipy's triangulation"""
+    rng = chk.rng
+    for i in range(n):
+        units = rng.choice(["English", "SI"])
+        xs = [-300.0, 0.0, 400.0]
+        ys = [-250.0, 50.0, 300.0]
+        zs = [-3000.0, -1500.0, 0.0]
+        A = np.array([[rng.uniform(-0.01, 0.01) for _ in range(3)] for _ in range(3)])       # V = V0 + A p
+        V0 = np.array([rng.uniform(-12, 12), rng.uniform(-12, 12), rng.uniform(-3, 3)])
+        r0 = 0.0023 if units == "English" else 1.2
+        gr = np.array([rng.uniform(-1e-8, 1e-8), rng.uniform(-1e-8, 1e-8), r0 * 3e-5])         # rho = r0 + gr . p
+        wind_rows, rho_rows = [], []
+        for x in xs:
+            for y in ys:
+                for z in zs:
+                    p = np.array([x, y, z])
+                    v = V0 + A @ p
+                    wind_rows.append([x, y, z, float(v[0]), float(v[1]), float(v[2])])
+                    rho_rows.append([x, y, z, float(r0 + gr @ p)])
+        sd = {"units": units, "scene": {"atmosphere": {"V_wind": wind_rows, "rho": rho_rows}}}
+        ac = gen.simple_wing_aircraft(N=4, b=rng.uniform(3, 8))
+        pos = [rng.uniform(-200, 300), rng.uniform(-200, 250), -rng.uniform(200, 2800)]
+        st = {"velocity": rng.uniform(60, 120), "alpha": rng.uniform(-2, 4), "position": pos,
+              "orientation": [rng.uniform(-60, 60), rng.uniform(-20, 20), rng.uniform(-170, 170)]}
+        try:
+            sc = gen.build_scene(MX, sd, [("a", ac, st, {})])
+            api.solve(sc)
+        except Exception as e:
+            chk.violation("field:raises", dict(kind="field-table", scene_units=units, state=st, error=repr(e)))
+            return
+        chk.case(dict(kind="field-table", units=units, i=i), nontrivial=True)
+        PC = np.array(sc._PC, dtype=float)
+        expw = V0[None, :] + PC @ A.T
+        expr = r0 + PC @ gr
+        pts = [np.array(pos, dtype=float), np.array([xs[1], ys[1], zs[1]])]                      # an interior point and a node
+        for p in pts:
+            w1 = np.array(sc._get_wind(p), dtype=float)
+            if not np.allclose(w1, V0 + A @ p, rtol=1e-9, atol=1e-9):
+                chk.violation("field:wind-single-point", dict(kind="field-table", point=p, got=w1, expected=V0 + A @ p))
+                return
+            r1 = float(np.asarray(sc._get_density(p)).reshape(-1)[0])
+            if not abs(r1 - (r0 + gr @ p)) <= 1e-9 * r0:
+                chk.violation("field:density-single-point", dict(kind="field-table", point=p, got=r1, expected=float(r0 + gr @ p)))
+                return
+        if not np.allclose(np.array(sc._v_wind, dtype=float), expw, rtol=1e-9, atol=1e-9):
+            chk.violation("field:wind-at-control-points", dict(kind="field-table", got=sc._v_wind, expected=expw, state=st))
+            return
+        if not np.allclose(np.array(sc._rho, dtype=float) * np.ones(len(PC)), expr, rtol=1e-9, atol=0):
+            chk.violation("field:density-at-control-points", dict(kind="field-table", got=sc._rho, expected=expr, state=st))
+            return
+
+
+
 def scene_sampling(chk, MX, n):
     """profile tables / constants / 'standard' through the Scene getters, and per-control-point sampling."""
     rng = chk.rng
@@ -262,6 +318,26 @@ def scene_sampling(chk, MX, n):
                 chk.violation("sampling:coefficient-reference", dict(kind="scene-sampling", scene=sd, state=st, key=ck, coefficient=cval,
                                                                      force=fval, q_origin_S=qS))
                 return
+        # the same aircraft moved (not turned) to another altitude samples the atmosphere of the new place
+        alt2 = rng.uniform(100.0, zmax * 0.9)
+        st2 = dict(st, position=[st["position"][0] + 35.0, st["position"][1] - 20.0, -alt2])
+        try:
+            sc.set_aircraft_state(state=copy.deepcopy(st2), aircraft="a")
+            api.solve(sc)
+        except Exception as e:
+            chk.count("moved_error=" + type(e).__name__)
+            continue
+        h2 = -np.array(sc._PC)[:, 2]
+        if kind == "standard":
+            exp2 = np.array([sa.rho(float(h)) for h in h2])
+        elif tab is not None:
+            exp2 = np.array([_interp_py(h, [t[0] for t in tab], [t[1] for t in tab]) for h in h2])
+        else:
+            exp2 = np.full(len(h2), c)
+        got2 = np.array(sc._rho, dtype=float) * np.ones(len(h2))
+        if not np.allclose(got2, exp2, rtol=rtol, atol=0):
+            chk.violation("sampling:rho-after-move", dict(kind="scene-sampling", scene=sd, state=st, moved_to=st2, got=got2, expected=exp2))
+            return
 
 
 def _interp_py(x, xs, ys):
@@ -285,7 +361,7 @@ def run(chk):
     chk.proofs(extra_trusted=[
         "Live/LiveTables.v: constants read from the running StandardAtmosphere object (harness/live.py)",
         "correspondence: Model/Atmos.v on binary64 vs StandardAtmosphere methods to 4 ulp; exp and ** supplied as oracle tables of NumPy's own results",
-        "modelled, not verified: libm exp/pow, np.interp (re-implemented in Base/Interp.v and compared bit-exactly), scipy LinearNDInterpolator (field tables: not modelled)",
+        "modelled, not verified: libm exp/pow, np.interp (re-implemented in Base/Interp.v and compared bit-exactly), scipy LinearNDInterpolator (field tables: not modelled; exercised with affine tables, which linear interpolation reproduces exactly)",
         "search oracle: scipy solve_ivp integration of the hydrostatic ODE (validation only)"])
     cases, descr = atmosphere_cases(chk, chk.q(400, 4000))
     c2, d2 = interp_cases(chk, chk.q(300, 3000))
@@ -299,6 +375,7 @@ def run(chk):
     nv0 = len(chk.violations)
     ode_search(chk, chk.q(40, 400))
     scene_sampling(chk, MX, chk.q(16, 120))
+    field_tables(chk, MX, chk.q(4, 30))
     if errors:
         chk.fail_obligation("correspondence:Model/Atmos.v(case files do not compile)", "\n".join(errors)[-3000:])
     elif failing and len(chk.violations) == nv0 and not chk.known_hits:
